@@ -51,12 +51,14 @@ func run(c *core.Ctx) {
 		"payloads carry escapes, control characters, multi-byte runes, empty values, long values; every value is tagged with source/stream/index. " +
 		"A reference model per (source, stream) decides every output event (ids, joined bytes, other members, order, no loss, no duplicate, no foreign bytes). " +
 		"In a third of the join cases and in a family of its own (several sources/streams on exactly 1 and 2 processors) the action carries match_fields (and / or / and_prefix / or_prefix / regexp / match_invert) or do_if, and 5-35 % of the events - also in the middle of runs - do not satisfy them. The output holds every event for 0-32 later events before it encodes and commits it. " +
+		"In a family of its own the joining action is followed by discard (match_fields / do_if on a marker member) and / or modify: dropped events and runs are accounted for as deliberately dropped, the walk judges what legitimately reaches the output. In another family 5-25 % of the events carry a join field that is not a JSON string (number, bool, null, object, array): such an event ends an open run, passes unchanged, and nothing behind it is glued to the earlier run. " +
 		"A split of a run is accepted only where the harness's own monotonic clock shows a feeder gap >= event_timeout (or, for k8s, where split_event_size justifies it). " +
 		"distinct_nontrivial = distinct (kind, pattern family, run-length bucket, how the run ended, empty continuation, limit hit, template) shapes of runs that were really observed at the output, plus distinct case configurations")
 	c.Assume("Go's regexp package defines what `start`/`continue` match (the reference classifies with the same configured expressions; the state machine is what is tested)")
 	c.Assume("join_template: the documented expressions in template/template.go (plus the two alternatives named in the code comments) define the templates on the vocabulary used here, which avoids the documented 'only first occurrence counts' corners")
 	c.Assume("k8s-multiline: the 128 KiB look-ahead of split_event_size is part of the documented 'not a strict rule'")
 	c.Assume("the monitoring output behaves like a batching output: it keeps the event itself (un-encoded) until K later events arrived or it has been idle for 15 ms, encodes it then (this late encoding is judged) and commits; the encoding taken inside Out is compared with it; In() call/return times are taken by the feeder with the monotonic clock")
+	c.Assume("a join field that is present but not a JSON string is not a line of a run: only values are generated whose JSON text, scalar text and the empty string satisfy neither the start nor the continue check of the case, so that every reading makes them non-continuing events")
 	c.Assume("match_fields / do_if on the joining action: an event that does not satisfy them passes unchanged while no run is open; while a run is open both readings are accepted (classified like a matching event, as the code does; or ends the run and passes unchanged) - it may never overtake the open run, leave it open, get lost or be duplicated")
 
 	nJoin, nTpl, nK8s := c.N(66, 660), c.N(36, 360), c.N(48, 480)
@@ -80,6 +82,20 @@ func run(c *core.Ctx) {
 	}
 	for j, n := 0, c.N(14, 140); j < n; j++ {
 		cases = append(cases, genMatchCase(rng, c.SubSeed("join_template-match", j), "join_template", j))
+	}
+
+	// actions behind the joining action (discard / modify), and join fields that are not strings
+	for j, n := 0, c.N(18, 180); j < n; j++ {
+		cases = append(cases, genPostCase(rng, c.SubSeed("join-post", j), "join", j))
+	}
+	for j, n := 0, c.N(9, 90); j < n; j++ {
+		cases = append(cases, genPostCase(rng, c.SubSeed("join_template-post", j), "join_template", j))
+	}
+	for j, n := 0, c.N(12, 120); j < n; j++ {
+		cases = append(cases, genNonStrCase(rng, c.SubSeed("join-nonstr", j), "join", j))
+	}
+	for j, n := 0, c.N(6, 60); j < n; j++ {
+		cases = append(cases, genNonStrCase(rng, c.SubSeed("join_template-nonstr", j), "join_template", j))
 	}
 
 	var mu sync.Mutex
@@ -122,6 +138,13 @@ func run(c *core.Ctx) {
 		}
 		if r.Case.OutHold > 0 {
 			c.Count("cases_output_holds_events", 1)
+		}
+		if r.Case.Post != "" {
+			c.Count("cases_actions_behind_join", 1)
+			c.Count("cases_post_"+r.Case.Post, 1)
+		}
+		if r.Case.NonStrPct > 0 {
+			c.Count("cases_non_string_field", 1)
 		}
 		if r.Stats["case_wall_ms"] > 20000 {
 			c.Extra("slow_case_"+r.Case.Name, map[string]any{"case": r.Case, "stats": r.Stats})
@@ -276,7 +299,15 @@ func run(c *core.Ctx) {
 		// match conditions really arrived while a run was open, on few processors
 		"events_read_late", "joined_read_late", "joined_read_late_few_procs", "k8s_joined_read_late",
 		"nomatch_lines_joined", "nomatch_ended_run", "nomatch_start_opened_run", "nomatch_start_passed_idle", "nomatch_passed",
-		"cases_match_several_streams_on_1_processor", "cases_match_several_streams_on_2_processors"}
+		"cases_match_several_streams_on_1_processor", "cases_match_several_streams_on_2_processors",
+		// runs (and single events) that the action behind the joining action dropped, such a
+		// run ended by an event while it was held with more events behind it, runs and
+		// events that passed that action, the member of the modify action seen;
+		// non-string join fields ending a run / meeting an idle action, continuation
+		// lines behind them
+		"post_discarded_joined_runs", "post_discarded_single_runs", "post_discarded_passthrough",
+		"post_discarded_run_ended_by_event_more_follow", "post_kept_joined_runs", "post_kept_passthrough", "post_modified_events",
+		"nonstring_ended_run", "nonstring_passed_idle", "run_end_by_nonstring", "cont_after_nonstring_not_glued"}
 	for _, k := range need {
 		if c.Counter(k) == 0 {
 			c.Fatal("expected behaviour class %q was never observed", k)
@@ -287,6 +318,11 @@ func run(c *core.Ctx) {
 	}
 	if c.Counter("max_procs") < 8 {
 		c.Fatal("no case ran on 8 processors")
+	}
+	for _, p := range postChains {
+		if c.Counter("cases_post_"+p) == 0 {
+			c.Fatal("no case with the chain %q behind the joining action completed", p)
+		}
 	}
 }
 
